@@ -23,7 +23,9 @@ func runC19(c *Ctx) {
 	c.rule("alphabet-agree", "no decoder's validity check rejects a decimal digit inside a word (encoders emit words over [a-z][a-z0-9]*), and all reject a leading digit the same way", 4)
 	c.rule("decoder-lowers", "every word appended by a decoder is the result of strings.ToLower, of the initialism extractor (which lower-cases), or a substring whose every rune was validated lower-case/digit", 8)
 	c.rule("skip-matches-width", "after a separator the next word starts at key + 1 for an ASCII separator constant, or key + utf8.RuneLen(separator) for the parameterised decoder; at an upper-case boundary it starts at the key itself", 4)
-	c.rule("initialism-table", "the initialism table consists of non-empty, upper-case constants and the extractor scans it completely on every pass (no early exit that depends on the table's order)", 2)
+	c.rule("initialism-table", "the initialism table consists of non-empty, upper-case constants assigned once, and every scan of it is complete (no early exit that depends on the table's order)", 2)
+	c.rule("initialism-longest", "wherever a word is cut after a table entry (s[len(x):]) the entry is the longest candidate: candidates come sorted by descending length and are taken from the front (or the scan is first-match over a table in which no entry is preceded by a proper prefix of it); the recursive split backs off to shorter candidates", 3)
+	c.rule("upper-words-extracted", "in the Go-identifier decoder a word is lower-cased whole only under word != strings.ToUpper(word); all-upper-case words go through the initialism extractor", 2)
 
 	w := c.W
 	pkg := "tagformat/caseconversion"
@@ -206,59 +208,207 @@ func runC19(c *Ctx) {
 		c19Boundary(c, f)
 	}
 
-	// ---- initialism-table ------------------------------------------------------------------------
-	ex := fn("extractInitialisms")
-	if ex != nil {
-		var table *ssa.Global
-		for _, i := range allInstrs(ex) {
-			if ld, ok := i.(*ssa.UnOp); ok {
-				if g, ok := ld.X.(*ssa.Global); ok && strings.Contains(g.Name(), "nitialism") {
-					table = g
-				}
+	// ---- initialism-table / initialism-longest ---------------------------------------------------
+	c19Initialisms(c, pkg)
+
+	// ---- upper-words-extracted --------------------------------------------------------------------
+	if f := fn("decodeGoCamelCase"); f != nil {
+		n := 0
+		for _, i := range allInstrs(f) {
+			call, ok := i.(*ssa.Call)
+			if !ok || calleeFullName(call) != "strings.ToLower" {
+				continue
 			}
-		}
-		okT, n := table != nil, 0
-		if table != nil {
-			for _, i := range allInstrs(table.Pkg.Func("init")) {
-				st, ok := i.(*ssa.Store)
-				if !ok || st.Addr != ssa.Value(table) {
-					continue
-				}
-				els, ok := sliceElems(st.Val, 0)
-				if !ok {
-					okT = false
-				}
-				for _, e := range els {
-					s, ok := constString(e.V)
-					if !ok || s == "" || strings.ToUpper(s) != s {
-						okT = false
+			if !c19FlowsToAppend(call) {
+				continue
+			}
+			n++
+			x := call.Call.Args[0]
+			okG := false
+			for _, ec := range condsDominating(call.Block()) {
+				if b, ok := ec.Cond.(*ssa.BinOp); ok && !ec.Val && b.Op == token.EQL || ok && ec.Val && b.Op == token.NEQ {
+					for _, pr := range [][2]ssa.Value{{b.X, b.Y}, {b.Y, b.X}} {
+						if up, ok := pr[1].(*ssa.Call); ok && calleeFullName(up) == "strings.ToUpper" && sameValue(up.Call.Args[0], pr[0]) && sameValue(pr[0], x) {
+							okG = true
+						}
 					}
-					n++
+				}
+			}
+			c.check(okG, "upper-words-extracted", relName(f)+"#lower#"+itoa(n), call.Pos(), "the word is lower-cased whole only where word != strings.ToUpper(word)", "the word "+canon(x)+" is emitted lower-cased without the all-upper-case test: a run of initialisms here is never split (the other words of this function go through the initialism extractor)")
+		}
+	}
+}
+
+// c19FlowsToAppend: the string value is appended (as a single element) to a slice.
+func c19FlowsToAppend(v ssa.Value) bool {
+	for _, r := range *v.Referrers() {
+		if st, ok := r.(*ssa.Store); ok && st.Val == v {
+			if ia, ok := st.Addr.(*ssa.IndexAddr); ok {
+				if a, ok := ia.X.(*ssa.Alloc); ok {
+					for _, rr := range *a.Referrers() {
+						if sl, ok := rr.(*ssa.Slice); ok {
+							for _, r3 := range *sl.Referrers() {
+								if call, ok := r3.(*ssa.Call); ok && calleeFullName(call) == "builtin.append" {
+									return true
+								}
+							}
+						}
+					}
 				}
 			}
 		}
-		c.check(okT && n >= 10, "initialism-table", "table", ex.Pos(), itoa(n)+" non-empty upper-case constants", "the initialism table has an empty, non-constant or non-upper-case entry")
-		// complete scan: the inner range loop over the table has no exit other than exhaustion
+	}
+	return false
+}
+
+func c19Initialisms(c *Ctx, pkg string) {
+	w := c.W
+	var table *ssa.Global
+	type site struct {
+		f  *ssa.Function
+		sl *ssa.Slice
+		po *prefixOrigin
+	}
+	var sites []site
+	for _, f := range w.funcsIn(pkg) {
+		for _, i := range allInstrs(f) {
+			sl, ok := i.(*ssa.Slice)
+			if !ok || sl.Low == nil || sl.High != nil {
+				continue
+			}
+			call, ok := sl.Low.(*ssa.Call)
+			if !ok || calleeFullName(call) != "builtin.len" {
+				continue
+			}
+			po := prefixOriginOf(call.Call.Args[0])
+			if po == nil {
+				continue
+			}
+			sites = append(sites, site{f, sl, po})
+			table = po.Table
+		}
+	}
+	if table == nil {
+		c.undecided("initialism-table", "table", token.NoPos, "no site consumes an element of a package-level table as a prefix (s[len(x):]); the initialism extractor was not recognised")
+		return
+	}
+	consts := w.tableConstants(table)
+	okT := len(consts) >= 10
+	for _, s := range consts {
+		if s == "" || strings.ToUpper(s) != s {
+			okT = false
+		}
+	}
+	c.check(okT, "initialism-table", "table", table.Pos(), itoa(len(consts))+" non-empty upper-case constants, assigned once", "the initialism table "+table.Name()+" has an empty, non-constant or non-upper-case entry, or is reassigned")
+
+	// shadowed entries: a proper prefix that precedes its extension in table order
+	shadow := ""
+	for i, a := range consts {
+		for _, b := range consts[i+1:] {
+			if a != b && strings.HasPrefix(b, a) && shadow == "" {
+				shadow = a + " precedes " + b
+			}
+		}
+	}
+	collectors := map[*prefixCollector]*ssa.Function{}
+	for k, st := range sites {
+		id := relName(st.f) + "#consume"
+		if k > 0 && sites[k-1].f == st.f {
+			id += "#" + itoa(k)
+		}
+		switch st.po.Kind {
+		case "table":
+			// first match in table order
+			c.check(shadow == "", "initialism-longest", id, st.sl.Pos(), "first match in table order, and no table entry is preceded by a proper prefix of it", "the word is cut after the first table entry that prefixes it, in table order, and "+shadow+" in "+table.Name()+": the longer initialism can never be decoded (HTTPS -> http, s)")
+		case "collector":
+			pc := st.po.Collector
+			collectors[pc] = staticCallee(st.po.Call)
+			okS := pc.Sorted != nil && pc.Less != nil && lessByLenDesc(pc.Less)
+			first := false
+			if n, ok := constInt(st.po.Index); ok && n == 0 {
+				first = true
+			}
+			if isForwardRangeIndex(st.po.Index) {
+				first = true
+			}
+			c.check(okS && first, "initialism-longest", id, st.sl.Pos(), "candidates come from "+relName(collectors[pc])+", which sorts the matching prefixes by descending length; taken first / in forward order", "the candidate initialisms are not tried longest-first (the collected prefixes must be sorted with len(p[i]) > len(p[j]) and taken from the front): HTTPS would be cut after HTTP")
+		}
+	}
+	// complete scan of the table in each collector / direct scan: no exit from the range loop over the table other than exhaustion
+	scanFns := map[*ssa.Function]bool{}
+	for _, f := range collectors {
+		scanFns[f] = true
+	}
+	for _, st := range sites {
+		if st.po.Kind == "table" {
+			scanFns[st.f] = true
+		}
+	}
+	for f := range scanFns {
 		var hdr *ssa.BasicBlock
-		for _, b := range ex.Blocks {
-			if strings.HasPrefix(b.Comment, "rangeindex.loop") {
-				hdr = b
+		for _, b := range f.Blocks {
+			if !strings.HasPrefix(b.Comment, "rangeindex.loop") {
+				continue
+			}
+			// the loop whose bound is len(table)
+			for _, i := range b.Instrs {
+				if cmp, ok := i.(*ssa.BinOp); ok && cmp.Op == token.LSS {
+					if l, ok := cmp.Y.(*ssa.Call); ok && calleeFullName(l) == "builtin.len" && tableLoad(l.Call.Args[0]) == table {
+						hdr = b
+					}
+				}
 			}
 		}
 		okScan := hdr != nil
 		if hdr != nil {
-			for _, b := range ex.Blocks {
+			for _, b := range f.Blocks {
 				if b == hdr || !inLoopBody(hdr, b) {
 					continue
 				}
 				for _, s := range b.Succs {
 					if s != hdr && !inLoopBody(hdr, s) {
-						okScan = false // an edge leaving the loop from its body: break / return
+						okScan = false
 					}
 				}
 			}
 		}
-		c.check(okScan, "initialism-table", "complete-scan", ex.Pos(), "every pass compares the string with every table entry", "the scan of the initialism table can stop early (correctness would depend on the order of the table, which is not sorted)")
+		c.check(okScan, "initialism-table", "complete-scan@"+relName(f), f.Pos(), "every pass compares the string with every table entry", "the scan of the initialism table in "+relName(f)+" can stop early (the result would depend on the order of the table, which is not sorted)")
+	}
+	// the complete split is tried with back-off: in the function that recurses on s[len(x):], the loop over candidates is left only by the successful return
+	for _, st := range sites {
+		if st.po.Kind != "collector" {
+			continue
+		}
+		rec := false
+		for _, r := range *st.sl.Referrers() {
+			if call, ok := r.(*ssa.Call); ok && staticCallee(call) != nil && origin(staticCallee(call)) == origin(st.f) {
+				rec = true
+			}
+		}
+		if !rec {
+			continue
+		}
+		// every return inside the candidate loop is under the recursive call's ok
+		okB := true
+		n := 0
+		for _, r := range returnsOf(st.f) {
+			if !underLoop(r) {
+				continue
+			}
+			n++
+			guarded := false
+			for _, ec := range condsDominating(r.Block()) {
+				if ex, ok := ec.Cond.(*ssa.Extract); ok && ec.Val && ex.Index == 1 {
+					if call, ok := ex.Tuple.(*ssa.Call); ok && staticCallee(call) != nil && origin(staticCallee(call)) == origin(st.f) {
+						guarded = true
+					}
+				}
+			}
+			if !guarded {
+				okB = false
+			}
+		}
+		c.check(okB && n > 0, "initialism-longest", relName(st.f)+"#backoff", st.f.Pos(), "the loop over candidate prefixes is left only by the return under the recursive call's ok: a candidate whose rest cannot be split is abandoned for the next shorter one", "the split of a run of initialisms does not back off to a shorter candidate when the rest cannot be split (HTTPSQL would become https, ql)")
 	}
 }
 
